@@ -107,6 +107,41 @@ def crossed_pair(kind, tag):
     return [prog(y, b, a, z, 5), prog(z, a, b, y, 7)]
 
 
+def garbled_symbol_text(p):
+    """class predicate of finding F8: the job's concurrent diagnostics name a file / variable whose text is not an
+    identifier of the job's own source (NUL / U+FFFD bytes, or a `File <dir>/<stem>.mmm not found` with a foreign stem):
+    the name was read through a dangling `Symbol::as_str` slice after another thread's interning moved the buffer"""
+    import re
+    if p.get("solo_status") != "ok" or p.get("status") == "ok":
+        return False
+    q = p.get("dump", "") + ".diag"
+    if not os.path.exists(q):
+        return False
+    diag = open(q, errors="replace").read()
+    if "\x00" in diag or "\ufffd" in diag:
+        return True
+    try:
+        ids = set(c15.identifiers(open(p["target"], errors="replace").read()))
+    except OSError:
+        return False
+    for m in re.finditer(r"File (\S*?)\.mmm not found", diag):
+        if os.path.basename(m.group(1)) not in ids:
+            return True
+    return False
+
+
+def asstr_probe():
+    """F8 witness without reading freed memory: how often does the text of a symbol MOVE while an `as_str()` slice is held"""
+    try:
+        p = mmh("C19", ["asstr", "8", "300"], timeout=120)
+        r = parse(p.stdout)["ASSTR"]
+        if r:
+            return {"checks": int(r[0][1]), "slices_left_dangling": int(r[0][2]), "first": r[0][3] if len(r[0]) > 3 else ""}
+        return {"crashed_rc": p.returncode}
+    except Exception as e:
+        return {"error": str(e)[:200]}
+
+
 KINDS = ["closure", "diag", "annot", "stateful", "ctor", "tparam"]
 
 
@@ -212,7 +247,16 @@ def main(ctx, args):
     inter = [p for p in problems if p["kind"] == "interference"]
     other = [p for p in problems if p["kind"] != "interference"]
     f17_like = [p for p in inter if set(p["differs_in"]) <= RAW_ID_FIELDS]
-    real = [p for p in inter if p not in f17_like]
+    f8 = next((k for k in known if k.get("class") == "garbled-symbol-text"), None)
+    f8_hits = [p for p in inter if p not in f17_like and f8 and garbled_symbol_text(p)]
+    real = [p for p in inter if p not in f17_like and p not in f8_hits]
+    probe = asstr_probe()
+    ctx.coverage["as_str_slice_probe(F8)"] = probe
+    if f8:
+        ctx.known_finding(f"{f8['id']} {f8['what']} (jobs hit this run: {len(f8_hits)}; probe: {probe.get('slices_left_dangling')} of {probe.get('checks')} held slices left dangling)")
+        for p in f8_hits[:2]:
+            ctx.notes.append({"F8_case": {k2: p[k2] for k2 in ("round", "threads", "thread", "job", "target", "differs_in")},
+                              "diag": open(p["dump"] + ".diag", errors="replace").read()[:300]})
     if real:
         best = min(real, key=lambda p: os.path.getsize(p["target"]) if os.path.exists(p["target"]) else 1 << 30)
         srcs = {q: open(q, errors="replace").read() for q in best["paths"] if os.sep + "C19gen" + os.sep in q and os.path.exists(q)}
@@ -259,7 +303,7 @@ def main(ctx, args):
                 "distinct = distinct source path, non-trivial = the source compiles to bytecode with at least one function. Plus real-thread schedules over the raw interner API vs the model's solo runs (up to renaming + one-string-one-id across threads)",
         "samples": [{"round": x["name"], "threads": x["k"], "jobs": x["jobs"], "wall_s": round(x["wall"], 1)} for x in rounds[:3]] + icorr["samples"],
         "rounds": len(rounds), "jobs_by_threads": dict(byk), "crossed_identifier_jobs": sum(x["crossed"] for x in rounds),
-        "interference_cases": len(real), "id_listing_only_differences(F17/F19/F20 classes)": len(f17_like),
+        "interference_cases": len(real), "garbled_symbol_text_cases(F8)": len(f8_hits), "id_listing_only_differences(F17/F19/F20 classes)": len(f17_like),
         "deadlocks_or_crashes": len(other),
         "traces_validated_against_impl": icorr["schedules"],
         "interner_threaded_schedules": icorr["schedules"], "interner_up_to_renaming_checked": icorr["renaming_checked"],
